@@ -129,11 +129,30 @@ class SWorld:
         return self.v + self.l + self.u
 
 
+def class_level_state():
+    """mutable containers defined at class level in the structure classes (other than the uid ->
+    statistics table, which is represented by the per-vertex 'registered' bit)"""
+    out = []
+    for cls in _library_classes():
+        if cls.__module__.endswith(".singleton"):
+            continue
+        for name, val in sorted(vars(cls).items()):
+            if name.startswith("__") and name.endswith("__"):
+                continue
+            if name == "_CACHE_STATS":
+                continue
+            if isinstance(val, (dict, list, set)):
+                out.append((cls.__name__, name, val))
+    return out
+
+
 def canon_world(w, skip_attrs=()):
+    cls_state = class_level_state()
     return (
         bool(w.flag),
+        tuple((c, n) for c, n, _ in cls_state),
         _canon.canon_graph(
-            w.roots(),
+            w.roots() + [v for _, _, v in cls_state],
             uid="drop",
             skip_attrs=skip_attrs,
             registered=lambda x: x.uid in Vertex._CACHE_STATS,
